@@ -184,6 +184,63 @@ def scenario_members(repo, seed, tmpdir=None, committed=False):
     return sim, viols, None
 
 
+def scenario_own_vs_installed(repo, seed, tmpdir=None, extra=8):
+    """A follower's OWN compaction is pending (started on one tick, completed on the next) when the leader's newer
+    snapshot and further entries arrive in between: completing the own compaction must not touch the new log (its
+    position lies below the installed snapshot); the follower converges."""
+    kw = {}
+    if tmpdir:
+        kw = {"journal_dir": tmpdir, "dump": True}
+    sim = Sim(repo, ["a", "b", "c"], seed=seed, conf={"useFork": False}, **kw)
+    sim.connect_all()
+    L = sim.elect()
+    if L is None:
+        return sim, [], "no leader"
+    B, C = [i for i in sim.voters if i != L]
+    for k in range(8):
+        sim.submit(L, "s%d" % k)
+    sim.run(8)
+    sim.disconnect(C, L)
+    sim.disconnect(C, B)
+    for k in range(3):
+        sim.submit(L, "t%d" % k)
+    sim.run(8, among=[L, B])
+    for i in (L, B):
+        sim.compact(i)
+    sim.run(3, among=[L, B])
+    if sim.log_of(L)[0][0] <= sim.objs[C].raftLastApplied:
+        return sim, [], "leader's snapshot is not ahead of the lagging node"
+    sim.cut(L, B)                           # silent: the next commands stay uncommitted
+    for k in range(extra):
+        sim.submit(L, "u%d" % k)
+    sim.tick(L, 0.0625)
+    own_pos = sim.objs[C].raftLastApplied
+    sim.connect(C, L)
+    sim.compact(C)
+    sim.tick(C, 0.0)                        # C starts its own compaction (position own_pos)
+    for _ in range(3):                      # the leader's snapshot and entries arrive before C's next tick
+        sim.tick(L, 0.125)
+        while sim.deliver(L, C):
+            pass
+    installed = sim.log_of(C)[0][0] > own_pos
+    sim.tick(C, 0.0625)                     # ... which completes the own compaction
+    sim.connect(L, B)
+    sim.run(24)
+    viols = monitors.sm_safety(sim) + monitors.errors(sim)
+    lo, co = sim.objs[L], sim.objs[C]
+    idx = [e[0] for e in sim.log_of(C)]
+    if idx != list(range(idx[0], idx[0] + len(idx))):
+        viols.append({"signature": "snapshot:own-compaction-damages-installed-log",
+                      "what": "log of %s is not contiguous after its own compaction (position %d) completed over the installed snapshot: %s"
+                              % (C, own_pos, idx)})
+    if co.raftLastApplied != lo.raftLastApplied or list(co.log) != list(lo.log):
+        viols.append({"signature": "snapshot:own-compaction-damages-installed-log",
+                      "what": "node %s started its own compaction at position %d, installed the leader's snapshot before the compaction "
+                              "completed, and does not converge: applied %d (commit %d, log %d..%d), leader applied %d"
+                              % (C, own_pos, co.raftLastApplied, co.raftCommitIndex, idx[0], idx[-1], lo.raftLastApplied)})
+    return sim, viols, None if installed else "snapshot was not installed between the two ticks"
+
+
 def _adjust(before, sim, i):
     """The tick that performs the compaction first applies newly committed entries: the snapshot position is
     the applied index of THAT tick; recover it from the snapshot label only when it lies between the
@@ -217,7 +274,8 @@ def run(ctx):
         for mode in ("mem", "file"):
             for name, fn in (("blocked", scenario_blocked), ("plain", scenario_plain),
                              ("members-pending", scenario_members),
-                             ("members-applied", lambda r, s_, t: scenario_members(r, s_, t, committed=True))):
+                             ("members-applied", lambda r, s_, t: scenario_members(r, s_, t, committed=True)),
+                             ("own-vs-installed", scenario_own_vs_installed)):
                 tmp = ctx.tmpdir() if mode == "file" else None
                 sim, v, note = fn(ctx.repo, sd, tmp)
                 cases += 1
@@ -237,6 +295,8 @@ def run(ctx):
          "samples": samples, "wall_s": round(time.time() - t0, 2)}
     if not reached_blocked:
         r["inconclusive"] = "no snapshot taken while committed entries were unapplied"
+    elif not any(s[0] == "own-vs-installed" and s[2] for s in seen):
+        r["inconclusive"] = "no snapshot installed while an own compaction was pending"
     elif not any(s[0] == "members-pending" and s[2] for s in seen):
         r["inconclusive"] = "no snapshot taken while a membership entry was appended and unapplied"
     return r
@@ -245,6 +305,7 @@ def run(ctx):
 def replay(ctx, violation):
     rp = violation.get("replay", {})
     fns = {"blocked": scenario_blocked, "plain": scenario_plain, "members-pending": scenario_members,
+           "own-vs-installed": scenario_own_vs_installed,
            "members-applied": lambda r, s_, t: scenario_members(r, s_, t, committed=True)}
     fn = fns.get(rp.get("scenario"), scenario_plain)
     tmp = ctx.tmpdir() if rp.get("mode") == "file" else None
